@@ -49,6 +49,10 @@ type Member struct {
 	Origin string
 	Owner  int      // client that created it (-1: built before the clients started)
 	Keys   []string // grouping columns of a grouper member
+	// Cold: registered without a snapshot (no I1 for this member).
+	Cold bool
+	// ArgCheck re-checks the column list the grouper was built from ("" = untouched).
+	ArgCheck func() string
 	// snapshot taken at creation
 	Dig  uint64
 	Snap interface{}
@@ -195,6 +199,9 @@ type World struct {
 	inputs  []inputCopy
 	// UserCtx is a shared, pre-populated, read-only evaluation context.
 	userCtx interface{}
+	// clauses: filter clause values by description, shared by every execution
+	// of the same operation in this world.
+	clauses map[string]qframe.FilterClause
 }
 
 type inputCopy struct {
@@ -308,6 +315,9 @@ func (w *World) InputsChanged() string {
 // member that no longer matches its snapshot.
 func (w *World) CheckAll() (*Member, string) {
 	for _, m := range w.Members {
+		if m.Cold {
+			continue
+		}
 		if ch, d := m.Changed(); ch {
 			return m, d
 		}
@@ -405,4 +415,38 @@ func (m *Member) FreshCopy() (*Member, bool) {
 		return m, false // the copy does not observe like the original: do not use it
 	}
 	return c, true
+}
+
+// Fork returns a private view of the world for one free-running goroutine:
+// its own member list and clause table (so that the harness itself shares no
+// mutable state between goroutines), holding the same member and clause
+// VALUES (which is the point: those are what qframe must tolerate being
+// shared). With cold set the evaluation context is left to be created lazily
+// by the goroutine itself.
+func (w *World) Fork() *World {
+	f := &World{Specs: w.Specs, Huge: w.Huge, Members: append([]*Member{}, w.Members...), clauses: map[string]qframe.FilterClause{}}
+	for k, v := range w.clauses {
+		f.clauses[k] = v
+	}
+	return f
+}
+
+// AddLight registers a member without observing its cells or its error text:
+// only what resolving an operation needs (names, types, length). Used by the
+// race engine's "cold" runs, in which the harness must not be the first to
+// touch whatever a value initialises lazily.
+func (w *World) AddLight(m *Member) *Member {
+	m.ID = len(w.Members)
+	if m.Kind == KFrame {
+		m.Len = m.F.Len()
+		if m.F.Err == nil {
+			m.Names = m.F.ColumnNames()
+			for _, t := range m.F.ColumnTypes() {
+				m.Types = append(m.Types, string(t))
+			}
+		}
+	}
+	m.Cold = true
+	w.Members = append(w.Members, m)
+	return m
 }
